@@ -10,6 +10,7 @@ import (
 	"os"
 	"sort"
 	"strings"
+	"sync"
 	"sync/atomic"
 	"testing"
 	"time"
@@ -148,11 +149,45 @@ func tryDeserializeNode(t fataler, in []byte) (bool, bool) {
 	})
 }
 
+// receiver gives the trie object an input is decoded into. Which kind is a function of the input alone: a new trie,
+// one whose root was set to nil, one that has just refused a proof, or one that holds another trie already.
+var (
+	fixtureOnce            sync.Once
+	fixtureProof, fixtureX []byte
+)
+
+func receiver(in []byte) *wmpt.WeightedMerkleTrie {
+	fixtureOnce.Do(func() {
+		src := wmpt.New(nil, nil)
+		keys := [][]byte{bytes.Repeat([]byte{0x11}, 32), bytes.Repeat([]byte{0x12}, 32), bytes.Repeat([]byte{0xa0}, 32)}
+		for i, k := range keys {
+			_ = src.Update(k, []byte{byte(i + 1), 7}, uint64(i+2))
+		}
+		_ = src.Root()
+		_, fixtureProof, _ = src.GetBlockProof(1)
+		fixtureX, _ = src.GetPath(keys[:2])
+	})
+	k := len(in)
+	if len(in) > 0 {
+		k += int(in[len(in)/2])
+	}
+	tr := wmpt.New(nil, nil)
+	switch k % 4 {
+	case 1:
+		tr.SetRoot(nil)
+	case 2:
+		_, _, _ = tr.VerifyBlockProof(1<<62, fixtureProof) // a block beyond the weight: refused
+	case 3:
+		_ = tr.Deserialize(fixtureX)
+	}
+	return tr
+}
+
 func tryDeserializeTrie(t fataler, in []byte) (bool, bool) {
 	return guarded(t, "WeightedMerkleTrie.Deserialize", in, func() (bool, bool) {
 		var probe wmpt.PersistTrie
 		past := cbor.Unmarshal(in, &probe) == nil
-		tr := wmpt.New(nil, nil)
+		tr := receiver(in)
 		if err := tr.Deserialize(in); err != nil {
 			return false, past
 		}
@@ -170,7 +205,7 @@ func tryVerify(t fataler, block uint64, in []byte) (bool, bool) {
 	return guarded(t, "WeightedMerkleTrie.VerifyBlockProof", in, func() (bool, bool) {
 		var probe wmpt.PersistTrie
 		past := cbor.Unmarshal(in, &probe) == nil
-		tr := wmpt.New(nil, nil)
+		tr := receiver(in)
 		h, _, err := tr.VerifyBlockProof(block, in)
 		if err != nil {
 			return false, past
@@ -384,7 +419,13 @@ func fieldMutate(rt *rapid.T, in []byte, label string) ([]byte, string) {
 	}
 	switch {
 	case n.Branch != nil:
-		switch gen.Uniform(rt, 0, 6, label+"bf") {
+		switch gen.Uniform(rt, 0, 7, label+"bf") {
+		case 7:
+			if len(n.Branch.Hash) > 0 {
+				n.Branch.Hash = append([]byte(nil), n.Branch.Hash...)
+				n.Branch.Hash[gen.Uniform(rt, 0, len(n.Branch.Hash)-1, label+"hb")] ^= 1
+				what = "branch-claimed-hash-bit"
+			}
 		case 6:
 			// several slots at once hold long records (an embedded short node with a key rest of hundreds of elements)
 			if len(n.Branch.Children) >= 4 {
@@ -422,7 +463,13 @@ func fieldMutate(rt *rapid.T, in []byte, label string) ([]byte, string) {
 			}
 		}
 	case n.Short != nil:
-		switch gen.Uniform(rt, 0, 2, label+"sf") {
+		switch gen.Uniform(rt, 0, 3, label+"sf") {
+		case 3:
+			if len(n.Short.Hash) > 0 {
+				n.Short.Hash = append([]byte(nil), n.Short.Hash...)
+				n.Short.Hash[gen.Uniform(rt, 0, len(n.Short.Hash)-1, label+"hb")] ^= 1
+				what = "short-claimed-hash-bit"
+			}
 		case 0:
 			n.Short.Hash = resize(n.Short.Hash)
 			what = "short-hash-length"
